@@ -140,3 +140,52 @@ func VxC07_Batch() {
 		vx.Assertf("C07.batch_code", vxCode(verr) == vxCode(ferr), "query %d fails alone with %s, ValidateMultiple reports %s", first, vxCode(ferr), vxCode(verr))
 	}
 }
+
+// ---- C01 size sweep: every public text entry point on statements whose one variable-size
+// element (identifier, quoted identifier, string, number, comment, parenthesis nest, list) has a
+// symbolic size 0..130: fixed-size scratch buffers and "fast path up to N" limits sit on such
+// boundaries, far beyond what the byte-level harnesses reach.
+func vxRepeat(s string, n int) string {
+	out := ""
+	for k := 0; k < n; k++ {
+		out += s
+	}
+	return out
+}
+
+func VxC01_Sizes() {
+	n := vx.Choice(131)
+	kind := vx.Choice(9)
+	var sql string
+	switch kind {
+	case 0:
+		sql = "SELECT " + vxRepeat("a", n) + " FROM t"
+	case 1:
+		sql = "SELECT `" + vxRepeat("a", n) + "` FROM t"
+	case 2:
+		sql = "SELECT \"" + vxRepeat("a", n) + "\" FROM t"
+	case 3:
+		sql = "SELECT '" + vxRepeat("a", n) + "' FROM t"
+	case 4:
+		sql = "SELECT 1" + vxRepeat("0", n) + " FROM t"
+	case 5:
+		sql = "SELECT a /*" + vxRepeat("c", n) + "*/ FROM t -- " + vxRepeat("d", n)
+	case 6:
+		sql = "SELECT " + vxRepeat("(", n%40) + "a" + vxRepeat(")", n%40) + " FROM t"
+	case 7:
+		sql = "SELECT a" + vxRepeat(", a", n%40) + " FROM t"
+	default:
+		sql = "SELECT a FROM " + vxRepeat("s.", n%4) + vxRepeat("t", n) + " AS " + vxRepeat("x", n)
+	}
+	vx.Notef("kind=%d n=%d", kind, n)
+	tree, err := Parse(sql)
+	vx.Assert("C01.size_value_or_error", (tree != nil) != (err != nil))
+	if err == nil {
+		_ = tree.SQL()
+		_ = ExtractMetadata(tree)
+	}
+	_ = Validate(sql)
+	_, _ = Format(sql, DefaultFormatOptions())
+	_, _ = ParseWithRecovery(sql)
+	vx.Assert("C01.size_returns", true)
+}
